@@ -205,7 +205,7 @@ package processor
 // be marked so that it is not searched twice.
 //@ ghostdecl blkPendingMark int
 //@ func (*Searcher).getFilteredBlocks
-//@   props C03
+//@   props C03 C05
 //@   ghostinit ghost(0, "blkPendingMark") == 0
 //@   loop 1:
 //@     invariant [every-handed-out-block-is-marked] ghost(0, "blkPendingMark") == 0
@@ -216,4 +216,28 @@ package processor
 //@     assert [marked-only-when-handed-out] ghost(0, "blkPendingMark") == 1
 //@     ghostset ghost(0, "blkPendingMark") = 0
 //@   ensures [nothing-left-unmarked] ghost(0, "blkPendingMark") == 0
+//@ end
+
+// ---- C06 (one pass or two passes over the input give the same rows): a merger
+// that joins parallel chains counts the rows it has emitted against its limit
+// (mergeSettings.numReturned).  A rewound pipeline starts that count afresh:
+// after Rewind the count is zero, however the previous pass ended (limit
+// reached, or inputs exhausted first).  That the Rewind of the input streams /
+// of the wrapped processor (other objects, interface calls) leaves THIS
+// processor's counter alone is an explicit site assumption.
+//@ ghostdecl dpCountAtCall uint64
+//@ func (*DataProcessor).Rewind
+//@   props C06
+//@   requires dp != nil
+//@   site call stream.Rewind #1:
+//@     ghostset ghost(dp, "dpCountAtCall") = dp.mergeSettings.numReturned
+//@   site callret stream.Rewind #1:
+//@     assume dp.mergeSettings.numReturned == ghost(dp, "dpCountAtCall")
+//@   site call dp.processor.Rewind #1:
+//@     ghostset ghost(dp, "dpCountAtCall") = dp.mergeSettings.numReturned
+//@   site callret dp.processor.Rewind #1:
+//@     assume dp.mergeSettings.numReturned == ghost(dp, "dpCountAtCall")
+//@   loop 1:
+//@     invariant dp.mergeSettings.numReturned == 0
+//@   ensures [limit-count-restarts-with-each-pass] dp.mergeSettings.numReturned == 0
 //@ end
